@@ -2,6 +2,15 @@
 """Regenerates MANIFEST.json from the table below (kept here so the manifest is always valid JSON)."""
 import json, subprocess
 CHECKS = {
+ "C10": ("exploration", "runtime monitor: reference branch-selection model + poison branches + if/unless duality (metamorphic)",
+         "Every plain universe value (canonical and in PRNG Go realisations) is used as the condition at every branch position of if/elsif chains of 1..6 branches and of unless, and every ordered universe pair as case subject x when value in five clause layouts; branches after the selected one carry conditions that fail when evaluated. 9e4 (quick) / 2e6 (thorough) PRNG conditions and programs are compared with the reference model and through the if/unless duality.",
+         "Trusts ref (truthiness, ==) as a reading of the statement; case pairs whose == is not stated (two maps) are skipped.", "DESIGN.md 5/C10"),
+ "C11": ("exploration", "runtime monitor: reference loop-trace model over an exhaustive modifier grid + PRNG nestings",
+         "The grid length 0..7 x offset x limit x reversed x for/tablerow(cols) x 7 collection representations x break/continue is rendered by the real code and the per-iteration trace [item|index|index0|rindex|rindex0|length|first|last] compared with the reference model; ranges for all endpoint pairs in -3..6, maps as multisets, ordered maps, cycle round-robin per loop/group, invariants for negative modifiers, and 3e4 / 6e5 PRNG nestings.",
+         "tablerow compared structurally (attributes stripped); map order not compared; negative modifiers, cols<=0, tablerow after break and loops over scalars are outside the statement.", "DESIGN.md 5/C11"),
+ "C12": ("exploration", "runtime monitor: variable probes (registered tag reading Context.Get) vs reference environment + capture equivalence (metamorphic)",
+         "2e4 / 4e5 PRNG programs with a probe after every construct (inside blocks, later iterations, after loops ended by break, in included cached templates) are rendered and every probe dump compared with the environment the reference model tracks; 3e4 / 6e5 fragments of the general generator are compared with their capture-wrapped form.",
+         "Leak-back of assignments made inside an included file is not asserted; probes truncate long strings to a length+hash.", "DESIGN.md 5/C12"),
  "C01": ("exploration", "runtime monitor at the API boundary: panic/fatal/result-shape oracle + logical step budget (verifhook.Step), child processes with crash attribution",
          "Every registered standard filter x receiver x argument tuples from a ~85-value boundary universe (exhaustive; args from the reduced universe in quick), an exhaustive operator/tag matrix over U^2, and 1.5e5 (quick) / 3e6 (thorough) hostile sources (PRNG bytes, delimiter strings, mutations of generated programs and of the template literals harvested from /repo's own tests, selector and oversized-literal injections) are parsed and rendered by the real code in worker processes. Oracle: no panic reaches the API, no worker dies or exceeds 60 CPU-s on a case, result is output xor non-nil SourceError, hook step count within a budget proportional to tokens x loop extent^nesting.",
          "Sampling beyond the enumerated matrices; inputs that can spell an unbounded range are skipped (counted in evidence); work at unhooked sites is only bounded by the CPU watchdog.", "DESIGN.md 5/C01"),
